@@ -63,6 +63,10 @@ type UEChoice struct {
 	// UEs — are answered first. The emulator waits for that message, so for the unchanged program this only makes
 	// the conversation longer; nothing else in the conversation depends on time.
 	CUCDelayMs int `json:"cuc_delay_ms,omitempty"`
+	// SetupDelayMs: the SMF of this UE takes this long before the PDU SESSION RESOURCE SETUP REQUEST goes out; requests
+	// of other UEs that arrive meanwhile are answered first (a network finishes the procedures of different UEs in
+	// whatever order it likes). An emulator that waits for each answer before it asks again only sees the pause.
+	SetupDelayMs int `json:"setup_delay_ms,omitempty"`
 	// EncPrio / IntPrio: the AMF's own priority order of the NAS ciphering (0..2) and integrity (1..2) algorithms; it
 	// selects the first one in its list that the UE announced in its security capability (TS 33.501 6.7.1). Empty:
 	// NEA0, NEA2, NEA1 and NIA2, NIA1.
